@@ -15,9 +15,12 @@
 (*   FixWorkerErr  an unexpected exception while building a test is        *)
 (*                 reported (NonFatalError + ERROR scenario) instead of    *)
 (*                 killing the worker thread silently                      *)
+(*   AliveCheck    (TRUE = the code) the consumer polls the workers'       *)
+(*                 liveness after a queue timeout; FALSE = a consumer that *)
+(*                 only waits for events (refuted by Termination)          *)
 (***************************************************************************)
 EXTENDS EventProtocol, Sequences, TLC
-CONSTANTS W, NOps, K, MaxFail, NPhases, FixDrain, FixWorkerErr, AllowStop, AllowFault
+CONSTANTS W, NOps, K, MaxFail, NPhases, FixDrain, FixWorkerErr, AllowStop, AllowFault, AliveCheck
 NoLimit == 0
 Workers == 1..W
 Ops == 1..NOps
@@ -96,7 +99,7 @@ C_Timeout == /\ ppc = "get" /\ q = <<>> /\ ppc' = "alive"
              /\ NoEmit /\ WUnch /\ UNCHANGED <<pi, q, stop, fails, limit, pstatus, executed, cur, problem, stopped, faulted>>
 AllDead == \A w \in Workers : wpc[w] = "dead"
 C_Alive == /\ ppc = "alive"
-           /\ ppc' = IF AllDead /\ (~FixDrain \/ q = <<>>) THEN "join" ELSE "get"
+           /\ ppc' = IF AliveCheck /\ AllDead /\ (~FixDrain \/ q = <<>>) THEN "join" ELSE "get"
            /\ NoEmit /\ WUnch /\ UNCHANGED <<pi, q, stop, fails, limit, pstatus, executed, cur, problem, stopped, faulted>>
 C_Yield ==
   /\ ppc = "yield" /\ Emit(cur)
@@ -180,6 +183,11 @@ Next == \/ P_Start \/ P_PhaseStarted \/ P_Skip \/ P_Finish
                                \/ W_Send(w) \/ W_Finish(w) \/ W_Intr(w)
         \/ Env_Stop
 Spec == Init /\ [][Next]_vars
+(* liveness: the main thread (plan loop + consumer) and every worker thread keep running; the environment owes nothing *)
+MainNext == P_Start \/ P_PhaseStarted \/ P_Skip \/ P_Finish \/ U_SuiteStart \/ C_Get \/ C_Timeout \/ C_Alive \/ C_Yield \/ C_CtrlC
+            \/ C_Join \/ U_SuiteFinish \/ U_PhaseFinish
+WorkerNext(w) == W_Loop(w) \/ W_Create(w) \/ W_Err1(w) \/ W_Err2(w) \/ W_Started(w) \/ W_CaseCheck(w) \/ W_Send(w) \/ W_Finish(w) \/ W_Intr(w)
+FairSpec == Spec /\ WF_vars(MainNext) /\ \A w \in Workers : WF_vars(WorkerNext(w))
 
 \* properties
 Done == ppc = "end"
@@ -196,4 +204,6 @@ ZeroMeansClean == (Done /\ ~RunCut /\ exit = 0) => problem = {}
 AtMostOneAfterStop == \A w \in Workers : sentAfterStop[w] <= 1
 MaxFailuresRespected == MaxFail # NoLimit => Cardinality({po \in DOMAIN reported : reported[po] \in {"failure", "error"}}) <= MaxFail
 LaterPhasesSkipped == (Done /\ limit /\ ~stopped) => mon.phase = NPhases
+(* C11 "exactly one finish event last": every run, whatever the schedule, faults and stop requests, reaches EngineFinished *)
+Termination == <>Done
 =============================================================================
